@@ -4,6 +4,7 @@ C15 — invalid configurations are rejected before anything is computed or writt
 shape vectors, all 8 variants).  Here: it accepts exactly the documented shapes.
 -/
 import MT.Main
+import MT.CliMain
 import Mathlib.Data.Nat.Sqrt
 import Mathlib.Tactic.Ring
 import Mathlib.Tactic.Linarith
@@ -116,6 +117,40 @@ theorem reject_leaves_outputs {β ω : Type} [DecidableEq β] [Weight ω] (inp :
   simp only [bind, Except.bind, h]
 
 end
+
+/-- **the command line writes result files only after the factorization returned**: whenever option
+parsing, a reader, the dispatch or the library's validation fails, `cliMain` yields an error and no file
+(model of multitensor.cpp:259-269 coming after the call; tie: `clirun` correspondence of files and exit
+status with the real binary) -/
+theorem cli_files_only_after_success (argv : List String) (adj : String) (aff : Option String) (fs : Cli.Files)
+    (h : Cli.cliMain argv adj aff = .ok fs) :
+    fs = [] ∨ ∃ (o : Cli.Opts) (c : Cli.CallRecord) (inp : Input Nat Nat Float) (d : Nat → Float)
+        (out : Output Nat Float) (nL : Nat) (seed : Int),
+      Cli.parseArgs argv = .run o ∧ Cli.cliCall o adj aff = .ok c ∧ factorize inp d = .ok out ∧
+      fs = Cli.resultFiles c.inst.directed c.K nL c.r seed out := by
+  unfold Cli.cliMain at h
+  split at h
+  · left; simpa using h.symm
+  · left; simpa using h.symm
+  · cases h
+  · rename_i o hp
+    split at h
+    · cases h
+    · rename_i c hc
+      split at h
+      · cases h
+      · simp only at h
+        split at h
+        · cases h
+        · rename_i out hf
+          right
+          simp only [Except.ok.injEq] at h
+          exact ⟨o, c, _, _, out, _, _, hp, hc, hf, h.symm⟩
+
+/-- a rejected library call makes the command line fail without files -/
+theorem cli_error_no_files (argv : List String) (adj : String) (aff : Option String) (e : String)
+    (h : Cli.cliMain argv adj aff = .error e) : ¬ ∃ fs, Cli.cliMain argv adj aff = .ok fs := by
+  rintro ⟨fs, hfs⟩; rw [h] at hfs; cases hfs
 
 /-- non-vacuity: a valid centre is accepted, one-off values are not -/
 example : validate ⟨false, 3, 3, 6, 8, 3, 6, 1, 1, 1⟩ = .ok (2, 2) :=
